@@ -10,6 +10,7 @@ import Driver.OpsLocal
 import Driver.OpsFind
 import Driver.OpsDump
 import Driver.OpsSwitch
+import Driver.OpsOwn
 /-
   bvp_lean — line-protocol driver: one operation per input line, one canonical
   result line per operation, computed by the *model*.  Each model area has its own
@@ -34,10 +35,15 @@ structure St where
   -- the library called the application's abort handler: the objects it was working on are in an
   -- undefined state, nothing more is asked of them until `reset`
   poisoned : Bool := false
+  own : OwnSt := {}
 
 def step (st : St) (line : String) : St × String :=
   let toks := (line.trimAscii.toString.splitOn " ").filter (· ≠ "")
   if toks = ["reset"] then ({ tm := { sets := st.tm.sets } }, "ok") else
+  if toks = ["own.reset"] then ({ tm := { sets := st.tm.sets } }, ownZeros) else   -- C16: what `reset` does, then the live counts
+  match stepOwn st.own toks with
+  | some (s, o) => ({ st with own := s }, o)
+  | none =>
   match stepBits st.bits toks with
   | some (s, o) => ({ st with bits := s }, o)
   | none =>
